@@ -3,6 +3,7 @@ import Driver.Util
 import Driver.Life
 import NopModel.Fungible
 import NopModel.Rpc
+import NopModel.EncW
 open Nop Nop.Driver
 
 structure DState where
@@ -70,6 +71,16 @@ def step (d : DState) (line : String) : DState × Option String :=
     | some t, some k, some e, some bs, some handles =>
       let s : Src := { bytes := bs, handles, fault := .armed k e }
       match decInto t (dflt t) s with
+      | (.ok _, s') =>
+        (d, some s!"err none {match s'.fault with | .zombie _ => "zombie" | _ => "clean"}")
+      | (.error e', s') =>
+        (d, some s!"err {e'.name} {match s'.fault with | .zombie _ => "zombie" | _ => "clean"}")
+    | _, _, _, _, _ => (d, some "bad-op")
+  | some [.atom "fault", .atom "w", .atom tid, .atom k, .atom en, v, .atom refs] =>
+    match d.ty? tid, k.toNat?, Err.ofName? en, toVal v, parseRefs refs with
+    | some t, some k, some e, some v, some rs =>
+      let s : Snk := { chan := { refs := rs }, fault := .armed k e }
+      match serialize t v s with
       | (.ok _, s') =>
         (d, some s!"err none {match s'.fault with | .zombie _ => "zombie" | _ => "clean"}")
       | (.error e', s') =>
